@@ -62,6 +62,10 @@ def gen_cases(tier, seed):
     exprs += [(t, "2021-03-10T12:43") for t in extra]
     for _ in range(4000 if tier == "thorough" else 500):
         exprs.append((G.expression(r)[1], r.choice(["2021-03-10T12:43", "2024-02-29T23:59", "2019-12-31T00:00"])))
+    # texts of the coverage-guided corpus (unusual rule combinations; vf/tools/covsoup.py)
+    from . import streams as S
+    cov = [(e["t"], e["ts"][:16]) for e in S.cov_entries() if "#" not in e["t"]]
+    exprs += cov if tier == "thorough" else r.sample(cov, min(len(cov), 150))
     # clock notations with letters (am/pm, uhr, h, o'clock), named hours, months, weekdays: the places where case could matter
     for cn, (fn, fl) in G.CLOCK.items():
         for h in (0, 1, 9, 11, 12, 13, 23):
